@@ -128,6 +128,25 @@ def checkKeyProof (o : GroupOps G) (H : List ByteArray → Int) (pk : PubKey G) 
       let bytes := cat ([o.enc pk.z] ++ rs.map o.enc ++ [o.enc (o.mul zic sx)] ++ caps.map o.enc)
       if H [bytes] == p.c then .ok true else .err
 
+/-- first messages of the key proof for the covered generators: `(R_k, S^{x̃r_k})` -/
+def keyProofTildes (o : GroupOps G) (pk : PubKey G) :
+    List (String × Int × Int) → Outcome (List G × List G)
+  | [] => .ok ([], [])
+  | (k, _, xt) :: rest =>
+    (getOrErr k pk.r).bind fun r =>
+    (o.pow pk.s xt).bind fun rt =>
+    (keyProofTildes o pk rest).map fun (rs, rts) => (r :: rs, rt :: rts)
+
+/-- `Issuer::_new_credential_key_correctness_proof` for a key built from chosen exponents
+    (`Z = S^{xz}`, `R_k = S^{xr_k}`): `covered` lists `(name, xr, x̃r)` for the generators the
+    proof speaks about, in the order of `xr_cap` -/
+def newKeyProof (o : GroupOps G) (H : List ByteArray → Int) (pk : PubKey G) (xz xzTilde : Int)
+    (covered : List (String × Int × Int)) : Outcome KeyProof :=
+  (o.pow pk.s xzTilde).bind fun zt =>
+  (keyProofTildes o pk covered).map fun (rs, rts) =>
+    let c := H [cat ([o.enc pk.z] ++ rs.map o.enc ++ [o.enc zt] ++ rts.map o.enc)]
+    ⟨c, xzTilde + c * xz, covered.map fun (k, xr, xt) => (k, xt + c * xr)⟩
+
 /-! ## signature correctness proof -/
 
 inductive Kind where
